@@ -30,6 +30,7 @@ type LStep struct {
 	RaceKind  string `json:",omitempty"`
 	RaceOffUs []int  `json:",omitempty"` // arrival offsets relative to the call, microseconds
 	HoldLock  bool   // park Leave and the racing accusations behind a held node lock, then release
+	AccFirst  bool   `json:",omitempty"` // behind the held lock the accusations queue up before Leave is called (they are served first, while the call is already under way)
 }
 
 type LPlan struct {
@@ -54,6 +55,7 @@ func genLPlan(t *rapid.T) LPlan {
 	lv := LStep{Kind: "leave", TimeoutMs: rapid.SampledFrom([]int{300, 1500}).Draw(t, "timeout"), RaceN: rapid.SampledFrom([]int{0, 1, 2, 4}).Draw(t, "racen"),
 		RaceKind: rapid.SampledFrom([]string{"suspect", "suspect", "dead", "alive"}).Draw(t, "racekind")}
 	lv.HoldLock = rapid.IntRange(0, 2).Draw(t, "holdlock") == 0
+	lv.AccFirst = rapid.Bool().Draw(t, "accfirst")
 	for i := 0; i < lv.RaceN; i++ {
 		lv.RaceOffUs = append(lv.RaceOffUs, rapid.SampledFrom([]int{0, 0, 0, -1, 1, 20}).Draw(t, "off"))
 	}
@@ -218,15 +220,28 @@ func runL(pl LPlan) (res vfx.Result) {
 				if parked {
 					var lerr error
 					leaveDone := make(chan struct{})
-					go func() { lerr = p.M.Leave(time.Duration(st.TimeoutMs) * time.Millisecond); close(leaveDone) }()
-					for spin := 0; spin < 3000; spin++ {
-						runtime.Gosched()
+					callLeave := func() {
+						go func() { lerr = p.M.Leave(time.Duration(st.TimeoutMs) * time.Millisecond); close(leaveDone) }()
+						for spin := 0; spin < 3000; spin++ {
+							runtime.Gosched()
+						}
 					}
-					for range st.RaceOffUs {
-						p.Net.DeliverNow(src, p.Addr(), p.Outer(mkAcc(st.RaceKind, inc).Leaf()))
+					accuse := func() {
+						for range st.RaceOffUs {
+							p.Net.DeliverNow(src, p.Addr(), p.Outer(mkAcc(st.RaceKind, inc).Leaf()))
+						}
+						for spin := 0; spin < 3000; spin++ {
+							runtime.Gosched()
+						}
 					}
-					for spin := 0; spin < 3000; spin++ {
-						runtime.Gosched()
+					if st.AccFirst {
+						// the accusations wait for the lock first; Leave is called while they wait and gets the lock after them
+						accuse()
+						callLeave()
+						labels["accusation-queued-before-leave:"+st.RaceKind] = true
+					} else {
+						callLeave()
+						accuse()
 					}
 					close(hold)
 					p.Rec.Unhold()
